@@ -58,9 +58,11 @@ def bounded(tier, seed):
     r2 = P.sweep(seed + 31, n, [P.literal_spans_verbatim, P.generated_code_verbatim], option_sets=sem, hazards=False, budget_s=15 if tier == "quick" else 600)
     fv = []
     fn = fence_function_sweep(tier, fv)
+    from . import funcspecs as FS
+    fn += FS.link_destination_roundtrip(fv, 3 if tier == "quick" else 5) + FS.fence_opener_sweep(fv)
     return {"evaluations": r1["evaluations"] + r2["evaluations"] + fn, "distinct_nontrivial": r1["distinct_nontrivial"] + r2["distinct_nontrivial"],
             "violations": r1["violations"] + r2["violations"] + fv, "samples": r1["samples"],
-            "rule": "(also: _min_fence_length == an independent spec on every code string of <= 5/6 tokens over {fence char, run of 3, "
+            "rule": "(also: _link_destination round trip through the parser for every destination of <= 3 (thorough 5) symbols; the fence test of preprocess_tag_block_spacing == CommonMark's on every line of <= 7 symbols) (also: _min_fence_length == an independent spec on every code string of <= 5/6 tokens over {fence char, run of 3, "
                     "space, newline, letter, 4 spaces}; indented code blocks holding fence-like lines in 4 containers) "
                     "seeded documents x {88,12,0} fill / {88,12} semantic with cleanups, smart quotes and ellipses on: the sequence of "
                     "code blocks (info string, lines), code spans, inline HTML, link/image destinations and titles, autolinks and link "
